@@ -10,13 +10,14 @@ run_one() {
   rsync -a --exclude .git /repo/ "$T/"
   if ! (cd "$T" && patch -p1 -s < "$patch" >/dev/null 2>&1); then echo "$name APPLY-FAILED"; rm -rf "$T"; return; fi
   hits=""
+  out=$(timeout 900 bin/hlsverif matrix -repo "$T" 2>&1)
   for p in $PROPS; do
-    out=$(timeout 300 bin/hlsverif check -prop $p -repo "$T" -noevidence -keysonly 2>&1)
-    k=$(echo "$out" | grep '^FAILKEY' | sed 's/^FAILKEY //' | grep -v "BYTERANGE" | cut -d'|' -f1 | sort -u | tr '\n' ',')
-    u=$(echo "$out" | grep -c '^UNDECIDED')
+    k=$(echo "$out" | grep "^$p FAILKEY" | sed "s/^$p FAILKEY //" | grep -v "BYTERANGE" | cut -d'|' -f1 | sort -u | tr '\n' ',')
+    u=$(echo "$out" | grep -c "^$p UNDECIDED")
     [ -n "$k" ] && hits="$hits $p[$k]"
     [ -z "$k" ] && [ "$u" != "0" ] && hits="$hits $p[undecided]"
   done
+  echo "$out" | grep -q '^LOADERROR' && hits=" LOADERROR"
   echo "$name :$hits"
   rm -rf "$T"
 }
